@@ -19,9 +19,11 @@ def strip(o):
 
 
 def whole(o):
-    """The observation including the error text (addresses of Go pointers normalised)."""
+    """The observation including the error text."""
     d = {k: v for k, v in (o or {}).items() if k not in ("msgcps", "tree", "tree_full")}
-    if "msg" in d:
+    # (only in the text of a recovered Go panic: the text of every other error is compared as it is - an address
+    # in it is an observable that differs from run to run)
+    if "msg" in d and d["msg"].startswith("panic:"):
         d["msg"] = re.sub(r"0x[0-9a-f]+", "0x?", d["msg"])
     return d
 
